@@ -226,8 +226,88 @@ def check_overflow_needs_buffer(rep, mod):
                     sample='%s: overflow only if buffer != NULL' % fn)
 
 
+def check_guard_value(RV, info, guards, sinks, sym):
+    import copy
+    import linform
+    from asmdb import REG64, parse_mem, is_mem
+    u, f = info['unit'], info['func']
+    RV.instance()
+    slot = None
+    for a in info['accesses']:
+        if a.kind == 'store' and a.addr[0] == 'P' and a.addr[1] == 'STACK' and a.val[0] == 'P' and a.val[1] == 'OUT' and a.insn.ops[1] == 'rsi':
+            slot = parse_mem(a.insn.ops[0])['disp'] or 0
+            break
+    if slot is None:
+        raise AnalysisBroken('%s: the stack slot that saves start_out (second argument) was not found' % sym)
+    nchecked = 0
+    for g in sorted(guards):
+        # flag producer: the instruction just before the branch
+        idx = f.addrs.index(g)
+        c = u.insns[f.addrs[idx - 1]]
+        if not (c.mn == 'cmp' and len(c.ops) == 2 and c.ops[0] in REG64 and is_mem(c.ops[1])):
+            continue
+        m = parse_mem(c.ops[1])
+        if m['base'] != 'rsp' or (m['disp'] or 0) != slot or m['index']:
+            continue
+        gi = u.insns[g]
+        passn = gi.end if gi.target is not None and gi.target not in (gi.end,) else None
+        chain = linform.straight_back(u, f, c.addr)
+        w = linform.Walk(u, f)
+        for a in chain[:-1]:
+            w.step(u.insns[a])
+        checked = dict(w.get(REG64[c.ops[0]][0]))
+        # explore the paths after the passed guard up to the first look-back read
+        found = []
+        work = [(passn, w, 0)]
+        while work:
+            a, ww, depth = work.pop()
+            while a is not None and depth < 60:
+                i = u.insns[a]
+                if a in sinks:
+                    if i.mn in ('movs', 'movsb', 'rep') or i.mn.startswith('rep'):
+                        form = dict(ww.get('rsi'))      # string copy: the source is [rsi]
+                    else:
+                        mo = [o for o in i.ops if is_mem(o)][0]
+                        form = ww.mem_form(parse_mem(mo))
+                    found.append((i, form))
+                    break
+                if i.mn == 'ret' or a in guards:
+                    break
+                ww.step(i)
+                depth += 1
+                succ = u.succ(f, a)
+                if len(succ) == 2:
+                    work.append((succ[1], copy.deepcopy(ww), depth))
+                a = succ[0] if succ else None
+        if not found:
+            RV.fail('%s: %s' % (u.name, u.where(c, f)), 'no look-back read follows this start_out guard within 60 instructions', key='R-GUARD-VALUE-ASM|%s|%#x|nosink' % (sym, c.addr - f.entry))
+            continue
+        nchecked += 1
+        for i, form in found:
+            RV.check(form == checked, '%s: %s' % (u.name, u.where(i, f)),
+                     'the look-back read uses address %s but the guard "%s" (%s) tested %s: the pointer was changed between its bound check and its use, so a distance reaching before start_out passes the check'
+                     % (fmt_form(form), c.text, u.where(c, f), fmt_form(checked)), key='R-GUARD-VALUE-ASM|%s|%#x' % (sym, i.addr - f.entry),
+                     sample='%s: guard tests %s, copy reads from the same value' % (sym, fmt_form(checked)))
+    if nchecked < 2:
+        raise AnalysisBroken('%s: expected two start_out guards (fast loop and tail loop), recognised %d' % (sym, nchecked))
+
+
+def fmt_form(fm):
+    if fm is None:
+        return '<unmodelled address>'
+    parts = []
+    for s_, c in sorted(fm.items(), key=lambda kv: str(kv[0])):
+        if s_ == 1:
+            parts.append('%+d' % c)
+        else:
+            parts.append(('%+d*' % c if c not in (1, -1) else ('+' if c == 1 else '-')) + str(s_))
+    return ' '.join(parts) or '0'
+
+
 def check_asm(rep, V):
     R = rep.rule('R-GUARD-SINK-ASM', 'asm decoders: on every path from a read of the RFC distance table to a look-back read of the output buffer lies a conditional branch to the ISAL_INVALID_LOOKBACK exit', floor=2, unit='decoders')
+    RV = rep.rule('R-GUARD-VALUE-ASM', 'asm decoders: the value each look-back guard compares with the saved start_out is, as a linear expression over the register contents before the guard, exactly the address of the first '
+                  'look-back read on every path that follows the passed guard (checked value = used value; nothing is added to or subtracted from the pointer between its check and its use)', floor=2, unit='decoders')
     RD = rep.rule('L-DEADCMP-INFLATE', 'every flag-setting compare of the asm decoders is consumed', floor=2, unit='decoders')
     res, _ = provenance.analyse('default')
     for sym in ('decode_huffman_code_block_stateless_01', 'decode_huffman_code_block_stateless_04'):
@@ -288,6 +368,7 @@ def check_asm(rep, V):
                    key='R-GUARD-SINK-ASM|%s|%#x' % (sym, x - f.entry))
         if not bad:
             R.ok(len(srcs), sample='%s: %d distance loads, %d look-back reads, %d guards' % (sym, len(srcs), len(sinks), len(guards)))
+        check_guard_value(RV, info, guards, sinks, sym)
         dead = provenance.dead_compares(u, f)
         RD.ok(provenance.count_compares(u, f) - len(dead))
         for i in dead:
